@@ -156,6 +156,25 @@ Section Binding.
     split; [exact Hk|]. split; [exact Ha|]. exact Hp.
   Qed.
 
+  (* a connection without a configured secret (nil or empty) keys its cookies with the bytes it
+     drew: a cookie made under any other key, the empty key or another connection's draw
+     included, is accepted only if that key equals the draw *)
+  Theorem unconfigured_secret : forall configured drawn,
+    (length configured = 0 -> effective_secret configured drawn = drawn) /\
+    (length configured <> 0 -> effective_secret configured drawn = configured) /\
+    (forall other addr p addr' p', length configured = 0 ->
+       verify_cookie hmac (effective_secret configured drawn) addr p (gen_cookie hmac other addr' p') = true ->
+       other = drawn).
+  Proof.
+    intros configured drawn. unfold effective_secret.
+    destruct (Nat.eqb (length configured) 0) eqn:E.
+    - apply Nat.eqb_eq in E. split; [reflexivity|]. split; [intro H; contradiction|].
+      intros other addr p addr' p' _ H. unfold verify_cookie, gen_cookie in H.
+      apply bytes_eqb_eq in H. apply hmac_injective in H as [Hk _]. symmetry; exact Hk.
+    - apply Nat.eqb_neq in E. split; [intro H; contradiction|]. split; [reflexivity|].
+      intros other addr p addr' p' H; contradiction.
+  Qed.
+
   (* and conversely the issued cookie verifies *)
   Theorem cookie_roundtrip : forall secret addr params,
     verify_cookie hmac secret addr params (gen_cookie hmac secret addr params) = true.
